@@ -414,3 +414,55 @@ def refused_bodies(fl: int, kind: int, n: int, lim: int) -> str:
 
 
 from vf.validate.stubs import ALL as VALIDATE  # noqa: E402  (stub-vs-real conformance, run before the obligations)
+
+
+class _NeverJson:
+    @staticmethod
+    def loads(s, **kw):
+        raise ValueError('not json')
+
+    @staticmethod
+    def dumps(obj, **kw):
+        import json
+        return json.dumps(obj, **kw)
+
+
+def _passthrough(fl, ws, text):
+    """A MESSAGE whose payload is an arbitrary (symbolic) text reaches the handler unchanged."""
+    from engineio import packet as _packet
+    old = _packet.Packet.json
+    sut = mk(fl, async_handlers=False)
+    try:
+        if ws:
+            r = sut.open('websocket')
+            sut.settle()
+        else:
+            sut.open('polling')
+            sut.settle()
+        sid = sut.sids()[0]
+        _packet.Packet.json = _NeverJson           # seam: no text is JSON (the look-alike rule is C01's subject)
+        n0 = len(sut.events)
+        if ws:
+            r.peer.send('4' + text)
+        else:
+            sut.post(sid, '4' + text)
+        sut.settle()
+        got = [a for k, s_, a in sut.events[n0:] if k == 'message']
+        if got != [text]:
+            return fail(PROP, 'PAYLOAD-UNCHANGED', 'payload %r delivered as %r' % (text, got), flavour=sut.flavour,
+                        transport='websocket' if ws else 'polling')
+        return ''
+    finally:
+        _packet.Packet.json = old
+        sut.close()
+
+
+@cond(quick=dict(S=3, timeout=170, parts=dict(FL=[0, 1], WS=[0, 1])), thorough=dict(S=5, timeout=1200, parts=dict(FL=[0, 1], WS=[0, 1])))
+def symbolic_payload_passthrough(fl: int, ws: int, text: str) -> str:
+    """
+    pre: fl == P.FL and ws == P.WS and len(text) <= P.S
+    post: _ == ''
+    """
+    if '\x1e' in text:
+        return ''
+    return verdict(_passthrough(fl, bool(ws), text))
